@@ -437,25 +437,31 @@ Proof.
   destruct l as [|x xs]; [destruct b; reflexivity|]. cbn [skipn plus]. apply IH.
 Qed.
 
+(* the connection state only moves forward *)
+Definition rk (st : vstate) : Z :=
+  match st with SynReceived => 0 | SynAckSent _ => 1 | Established => 2 | _ => 3 end.
+Lemma rk_max : forall st, rk st <= 3. Proof. destruct st; cbn [rk]; lia. Qed.
+
 Definition fpr (s s' : vsock) : Prop :=
   v_segs s' = v_segs s /\ v_opts s' = v_opts s /\ v_now s' = v_now s /\ v_env_now s' = v_env_now s /\
   v_emsg_limit s' = v_emsg_limit s /\ v_restart s' = v_restart s /\
   (exists k, v_sends s' = skipn k (v_sends s)) /\
   (exists l, v_out s' = l ++ v_out s /\ Forall nodata l) /\
   v_rtte s' = v_rtte s /\ v_rto_retransmissions s' = v_rto_retransmissions s /\
-  v_recovery s' = v_recovery s.
+  v_recovery s' = v_recovery s /\
+  v_inbox s' = v_inbox s /\ v_inbox_closed s' = v_inbox_closed s /\ rk (v_state s) <= rk (v_state s').
 
 Lemma fpr_refl : forall s, fpr s s.
 Proof.
-  intro s. unfold fpr. repeat split. - exists 0%nat. reflexivity.
+  intro s. unfold fpr. repeat split; try apply Z.le_refl. - exists 0%nat. reflexivity.
   - exists []. split; [reflexivity | constructor].
 Qed.
 
 Lemma fpr_trans : forall a b c, fpr a b -> fpr b c -> fpr a c.
 Proof.
-  unfold fpr. intros a b c (A1 & A2 & A3 & A4 & A5 & A6 & (k1 & A9) & (l1 & A10 & A11) & A12 & A13 & A14)
-    (B1 & B2 & B3 & B4 & B5 & B6 & (k2 & B9) & (l2 & B10 & B11) & B12 & B13 & B14).
-  repeat split; try congruence.
+  unfold fpr. intros a b c (A1 & A2 & A3 & A4 & A5 & A6 & (k1 & A9) & (l1 & A10 & A11) & A12 & A13 & A14 & A15 & A16 & A17)
+    (B1 & B2 & B3 & B4 & B5 & B6 & (k2 & B9) & (l2 & B10 & B11) & B12 & B13 & B14 & B15 & B16 & B17).
+  repeat split; try congruence; try lia.
   - exists (k1 + k2)%nat. rewrite B9, A9. apply skipn_add.
   - exists (l2 ++ l1). split; [rewrite B10, A10; apply app_assoc|].
     apply Forall_app. split; assumption.
@@ -465,14 +471,18 @@ Lemma fpr_same : forall s s' : vsock,
   v_segs s' = v_segs s -> v_opts s' = v_opts s -> v_now s' = v_now s -> v_env_now s' = v_env_now s ->
   v_emsg_limit s' = v_emsg_limit s -> v_restart s' = v_restart s -> v_sends s' = v_sends s ->
   v_out s' = v_out s -> v_rtte s' = v_rtte s ->
-  v_rto_retransmissions s' = v_rto_retransmissions s -> v_recovery s' = v_recovery s -> fpr s s'.
+  v_rto_retransmissions s' = v_rto_retransmissions s -> v_recovery s' = v_recovery s ->
+  v_inbox s' = v_inbox s -> v_inbox_closed s' = v_inbox_closed s -> rk (v_state s) <= rk (v_state s') ->
+  fpr s s'.
 Proof.
-  intros s s' E1 E2 E3 E4 E5 E6 E9 E10 E11 E12 E13. unfold fpr. repeat split; auto.
+  intros s s' E1 E2 E3 E4 E5 E6 E9 E10 E11 E12 E13 E14 E15 E16. unfold fpr. repeat split; auto.
   - exists 0%nat. exact E9.
   - exists []. split; [exact E10 | constructor].
 Qed.
 
-Ltac fpr_leaf := apply fpr_same; reflexivity.
+Ltac fpr_leaf := apply fpr_same; first [reflexivity | apply Z.le_refl].
+(* a step that moves the state forward *)
+Ltac fpr_st E := apply fpr_same; try reflexivity; vsimpl_goal; rewrite ?E; cbn [rk]; pose proof rk_max; try lia.
 
 (* the same without the claim on the RTT estimator (the RTO reaction of send_tx_queue changes it) *)
 Definition fpw (s s' : vsock) : Prop :=
@@ -521,7 +531,7 @@ Lemma next_send_fpr : forall (s : vsock) n s1 o, next_send s n = (s1, o) -> fpr 
 Proof.
   intros s n s1 o E. destruct (VSock_Inv.next_send_shape _ _ _ _ E) as [[[-> _]|(o0 & r & Hs & ->)] _];
     [apply fpr_refl|].
-  unfold fpr. vsimpl_goal. repeat split.
+  unfold fpr. vsimpl_goal. repeat split; try apply Z.le_refl.
   - exists 1%nat. rewrite Hs. reflexivity.
   - exists []. split; [reflexivity | constructor].
 Qed.
@@ -532,7 +542,7 @@ Proof.
   intros s h Ht. unfold send_control_packet. destruct (v_transport_pending s); [apply fpr_refl|].
   destruct (next_send s _) as [s1 o] eqn:E. apply next_send_fpr in E.
   destruct o; cbn [sfp].
-  - eapply fpr_trans; [exact E|]. unfold on_packet_sent, emit, fpr. vsimpl_goal. repeat split.
+  - eapply fpr_trans; [exact E|]. unfold on_packet_sent, emit, fpr. vsimpl_goal. repeat split; try apply Z.le_refl.
     + exists 0%nat. reflexivity.
     + eexists [_]. split; [reflexivity|]. constructor; [|constructor]. unfold nodata, hdr_with.
       cbn [p_hdr ch_type]. exact Ht.
@@ -566,22 +576,28 @@ Qed.
 Lemma maybe_send_syn_ack_fpr : forall s : vsock, sfp s (maybe_send_syn_ack s).
 Proof.
   intro s. unfold maybe_send_syn_ack.
-  assert (G : forall c, sfp s
+  assert (G : (forall c, rk (v_state s) <= rk (SynAckSent c)) -> forall c, sfp s
      (if c =? o_max_retx (v_opts s) then SErr s ErrMaxSynAckRetransmissionsReached
       else sbind (send_ack s) (fun s1 sent =>
         if sent then SOk (set_t_syn_ack_resend (set_state s1 (SynAckSent (c + 1)))
                (timer_arm (v_t_syn_ack_resend s1) (v_now s1) SYNACK_RESEND_INTERNAL true)) tt
         else SOk s1 tt))).
-  { intros c. destruct (_ =? _); [split; [apply fpr_refl | discriminate]|].
-    apply sfp_bind; [apply send_ack_fpr|].
-    intros s1 [|]; cbn [sfp]; [fpr_leaf | apply fpr_refl]. }
-  destruct (v_state s); try (cbn [sfp]; fpr_leaf).
-  - apply G.
-  - destruct (timer_expired _ _); [apply G | apply fpr_refl].
+  { intros Hst c. destruct (_ =? _); [split; [apply fpr_refl | discriminate]|].
+    pose proof (send_ack_fpr s) as F. pose proof (send_ack_txf s) as T.
+    destruct (send_ack s) as [s1 sent|s1 e|]; cbn [sbind sfp stR] in *; auto.
+    destruct sent; cbn [sfp]; [|exact F].
+    eapply fpr_trans; [exact F|]. destruct T as (_ & _ & _ & _ & _ & _ & T7 & _).
+    apply fpr_same; try reflexivity. vsimpl_goal. rewrite T7. apply Hst. }
+  destruct (v_state s) eqn:Est; try (cbn [sfp]; fpr_leaf).
+  - apply G. intros c. cbn [rk]. lia.
+  - destruct (timer_expired _ _); [apply G; intros c; cbn [rk]; lia | apply fpr_refl].
 Qed.
 
 Lemma transition_fpr : forall s : vsock, fpr s (transition_to_fin_wait_1 s).
-Proof. intro s. unfold transition_to_fin_wait_1. destruct (v_state s); first [apply fpr_refl | fpr_leaf]. Qed.
+Proof.
+  intro s. unfold transition_to_fin_wait_1.
+  destruct (v_state s) eqn:Est; first [apply fpr_refl | fpr_st Est].
+Qed.
 
 Lemma poll_tail_fpr : forall s : vsock, fpr s (poll_tail s).
 Proof.
@@ -595,9 +611,9 @@ Lemma state_table_fpr : forall (s : vsock) h,
   match state_table s h with TblErr _ e => nmax e | _ => True end.
 Proof.
   intros s h. unfold state_table, restart_remote_inactivity_timer.
-  destruct (ch_type h); destruct (v_state s); cbn [tbl_state negb];
+  destruct (ch_type h); destruct (v_state s) eqn:Est; cbn [tbl_state negb];
     repeat (match goal with |- context [if ?c then _ else _] => destruct c end);
-    cbn [tbl_state]; (split; [first [apply fpr_refl | fpr_leaf] | first [exact I | discriminate]]).
+    cbn [tbl_state]; (split; [first [apply fpr_refl | fpr_st Est] | first [exact I | discriminate]]).
 Qed.
 
 Lemma add_err_nmax : forall r e, add_err r = Some e -> nmax e.
@@ -823,6 +839,8 @@ End SendRule.
 Section PimRule.
 Variable Iv : vsock -> Prop.
 Hypothesis I_fpr : forall s s', fpr s s' -> Iv s -> Iv s'.
+(* taking a message from the inbox; the channel-closed arm *)
+Hypothesis I_inbox : forall (s : vsock) l, Iv s -> Iv (set_inbox s l).
 (* the bookkeeping after an acknowledgement: RTO counter and two timers *)
 Hypothesis I_prog : forall (s : vsock) c tr ti, Iv s ->
   Iv (set_t_inactivity (set_t_retransmit (set_rto_retransmissions s c) tr) ti).
@@ -874,12 +892,13 @@ Proof.
   { intros s acc Hi. destruct (v_inbox_closed s).
     - apply spI_bind.
       + eapply sfp_spI; [eapply I_fpr; [apply transition_fpr | exact Hi] | apply maybe_send_fin_fpr].
-      + intros s2 _ H2. cbn [spI]. eapply I_fpr; [|exact H2]. fpr_leaf.
+      + intros s2 _ H2. cbn [spI]. eapply I_fpr; [|exact H2].
+        apply fpr_same; try reflexivity. vsimpl_goal. cbn [rk]. apply rk_max.
     - cbn [spI]. eapply I_fpr; [|exact Hi]. fpr_leaf. }
   induction fuel as [|m0 fuel IH]; intros s acc Hi; cbn [recv_loop];
     destruct (v_inbox s) as [|m rest] eqn:Ei; try (apply Hbase; exact Hi); try exact I.
   apply spI_bind.
-  - apply pim_msg_rule. eapply I_fpr; [|exact Hi]. fpr_leaf.
+  - apply pim_msg_rule. apply I_inbox. exact Hi.
   - intros s1 r H1. destruct (_ || _); [exact H1 | apply IH; exact H1].
 Qed.
 
@@ -1160,6 +1179,7 @@ Lemma pim_CAP : forall s : vsock, CAP s -> spI CAP (process_all_incoming_message
 Proof.
   intros s Hc. apply pim_rule; try exact Hc.
   - exact CAP_fpr.
+  - intros a l K. eapply CAP_eq; [| |exact K]; reflexivity.
   - intros a c tr ti K. eapply CAP_eq; [| |exact K]; reflexivity.
   - intros s1 s2 h res [H1 H0] E. destruct (pim_ack_SP _ _ _ _ _ E H1) as (K1 & K2 & _).
     unfold CAP. rewrite K2. auto.
@@ -1487,6 +1507,7 @@ Lemma pim_IA : forall s : vsock, IA s -> spI IA (process_all_incoming_messages c
 Proof.
   intros s Hi. apply pim_rule; try exact Hi.
   - exact IA_fpr.
+  - intros a l K. eapply IA_skr; [|exact K]. skr_leaf.
   - intros a c tr ti K. eapply IA_skr; [|exact K]. skr_leaf.
   - intros s1 s2 h res K E. eapply IA_skr; [eapply pim_ack_skr; exact E | exact K].
   - intros s3 rc hd rtt now segs' p recalc K _ _. eapply IA_skr; [|exact K]. unfold set_recovering. skr_leaf.
